@@ -9,12 +9,13 @@ def showInt : Option Int → String
   | some v => toString v
 
 /-- all validators on one str argument:
-    `ipv4 ipv6 ip cidr cidr6 mac port icmp_type icmp_code int()` -/
+    `ipv4 ipv6 ip cidr cidr6 mac port icmp_type icmp_code int() ipv4(strict=False)` -/
 def onStr (s : List Char) : String :=
   String.intercalate " " [
     b (isValidIPv4 s), b (isValidIPv6 s), b (isValidIP s), b (isValidCidr s),
     b (isValidIPv6Cidr s), b (isValidMac s), b (isValidPort (.str s)),
-    b (isValidIcmpType (.str s)), b (isValidIcmpCode (.str s)), showInt (pyInt s)]
+    b (isValidIcmpType (.str s)), b (isValidIcmpCode (.str s)), showInt (pyInt s),
+    b (isValidIPv4Aton s)]
 
 def onVal (v : PyVal) : String :=
   String.intercalate " " [b (isValidPort v), b (isValidIcmpType v), b (isValidIcmpCode v)]
